@@ -52,8 +52,11 @@ StampDone(s2) ==
 \* longer ago than that is still undelivered.  Together with the strict-timer rule (no timer while a step of the
 \* emulator - including waking a released poll - is enabled) this makes "the released poll was never answered"
 \* unexplainable instead of "answered just before the client was killed".
+\* (Extensions API only: its answers are a few hundred bytes; an event of several MiB on its way to a slow runtime
+\*  client can legitimately still be in flight when the function timeout expires)
 NoStaleAnswer ==
-    \A c \in DOMAIN st.calls : (st.calls[c].st = "done" /\ ~st.calls[c].det) => NextT - st.calls[c].tdone <= AnswerSlack
+    \A c \in DOMAIN st.calls :
+        (st.calls[c].st = "done" /\ ~st.calls[c].det /\ st.calls[c].who # "rt") => NextT - st.calls[c].tdone <= AnswerSlack
 
 ----------------------------------------------------------------------------
 (* observable actions *)
